@@ -277,6 +277,132 @@ impl<'s> Kind<'s> for IterK<'s> {
     }
 }
 
+/// `&[char; N]`
+pub struct ArrK<'s, const N: usize>(std::marker::PhantomData<&'s ()>);
+macro_rules! arr_kind {
+    ($($n:literal),*) => {$(
+        impl<'s> Kind<'s> for &'s [char; $n] {
+            const NAME: &'static str = concat!("array", stringify!($n));
+            value_kind!();
+            fn make(buf: &'s Buf) -> Self {
+                (&buf.chars[..]).try_into().expect("array kind used with an input of another length")
+            }
+            fn sp(s: &SimpleSpan) -> Sp {
+                simple(s)
+            }
+            fn off(_buf: &Buf, p: usize, q: usize) -> Sp {
+                (p, q)
+            }
+        }
+    )*};
+}
+arr_kind!(0, 1, 2, 3, 4, 5, 6);
+
+pub type BoxedStreamK<'s> = chumsky::input::BoxedStream<'s, char>;
+impl<'s> Kind<'s> for BoxedStreamK<'s> {
+    const NAME: &'static str = "boxed_stream";
+    value_kind!();
+    fn make(buf: &'s Buf) -> Self {
+        chumsky::input::Stream::from_iter(buf.chars.iter().copied()).boxed()
+    }
+    fn sp(s: &SimpleSpan) -> Sp {
+        simple(s)
+    }
+    fn off(_buf: &Buf, p: usize, q: usize) -> Sp {
+        (p, q)
+    }
+}
+
+pub type ExactStreamK<'s> = chumsky::input::BoxedExactSizeStream<'s, char>;
+impl<'s> Kind<'s> for ExactStreamK<'s> {
+    const NAME: &'static str = "exact_size_boxed_stream";
+    value_kind!();
+    fn make(buf: &'s Buf) -> Self {
+        chumsky::input::Stream::from_iter(buf.chars.iter().copied()).exact_size_boxed()
+    }
+    fn sp(s: &SimpleSpan) -> Sp {
+        simple(s)
+    }
+    fn off(_buf: &Buf, p: usize, q: usize) -> Sp {
+        (p, q)
+    }
+}
+
+/// `Stream` over an iterator that logs every pull (index of the item handed out).
+pub struct CountingIter {
+    chars: std::rc::Rc<Vec<char>>,
+    i: usize,
+}
+thread_local! {
+    pub static PULLS: std::cell::RefCell<Vec<usize>> = std::cell::RefCell::new(Vec::new());
+}
+impl Iterator for CountingIter {
+    type Item = char;
+    fn next(&mut self) -> Option<char> {
+        let c = self.chars.get(self.i).copied();
+        if c.is_some() {
+            PULLS.with(|p| p.borrow_mut().push(self.i));
+            self.i += 1;
+        }
+        c
+    }
+}
+pub type CountStreamK = chumsky::input::Stream<CountingIter>;
+impl<'s> Kind<'s> for CountStreamK {
+    const NAME: &'static str = "counting_stream";
+    value_kind!();
+    fn make(buf: &'s Buf) -> Self {
+        PULLS.with(|p| p.borrow_mut().clear());
+        chumsky::input::Stream::from_iter(CountingIter { chars: std::rc::Rc::new(buf.chars.clone()), i: 0 })
+    }
+    fn sp(s: &SimpleSpan) -> Sp {
+        simple(s)
+    }
+    fn off(_buf: &Buf, p: usize, q: usize) -> Sp {
+        (p, q)
+    }
+}
+
+/// `&str` wrapped by `with_context`: spans carry the context 77.
+pub type CtxSpan = SimpleSpan<usize, u32>;
+pub type WithCtxK<'s> = chumsky::input::WithContext<CtxSpan, &'s str>;
+impl<'s> Kind<'s> for WithCtxK<'s> {
+    const NAME: &'static str = "with_context";
+    value_kind!();
+    fn make(buf: &'s Buf) -> Self {
+        buf.text.as_str().with_context::<CtxSpan>(77)
+    }
+    fn sp(s: &CtxSpan) -> Sp {
+        assert_eq!(s.context, 77, "span lost the context given to with_context");
+        (s.start, s.end)
+    }
+    fn off(buf: &Buf, p: usize, q: usize) -> Sp {
+        (buf.byte_off[p], buf.byte_off[q])
+    }
+}
+
+/// `&[char]` wrapped by `map_span`: offsets shifted by 1000, context 5.
+pub type SpanFn = fn(SimpleSpan) -> CtxSpan;
+pub type MapSpanK<'s> = chumsky::input::MappedSpan<CtxSpan, &'s [char], SpanFn>;
+fn shift_span(s: SimpleSpan) -> CtxSpan {
+    SimpleSpan { start: s.start + 1000, end: s.end + 1000, context: 5 }
+}
+impl<'s> Kind<'s> for MapSpanK<'s> {
+    const NAME: &'static str = "map_span";
+    value_kind!();
+    fn make(buf: &'s Buf) -> Self {
+        let f: SpanFn = shift_span;
+        buf.chars.as_slice().map_span(f)
+    }
+    fn sp(s: &CtxSpan) -> Sp {
+        assert_eq!(s.context, 5, "span lost the context produced by map_span's function");
+        (s.start, s.end)
+    }
+    fn off(_buf: &Buf, p: usize, q: usize) -> Sp {
+        (p + 1000, q + 1000)
+    }
+}
+
 // -----------------------------------------------------------------------------------------------
 // Error types
 
